@@ -21,6 +21,13 @@ QR_COEFF_TOL = 1e-8    # coefficient function of a QR-built MPO, relative to the
 
 
 # ====================================================================== generator
+# CODATA 2018, hard-coded (independent of renormalizer.utils.constant / scipy.constants):
+#   1 Hartree = 27.211386245988 eV = 219474.63136320 cm^-1 = 315775.02480407 K
+HARTREE_IN = {"eV": 27.211386245988, "ev": 27.211386245988, "meV": 27211.386245988, "mev": 27211.386245988,
+              "cm-1": 219474.63136320, "cm^{-1}": 219474.63136320, "K": 315775.02480407, "k": 315775.02480407,
+              "au": 1.0, "a.u.": 1.0}
+UNIT_TOL = 1e-9        # relative tolerance wherever a unit conversion enters (the package uses scipy's CODATA set)
+
 def site_dofs(i, s):
     if s["kind"] in ("multi", "multivac"):
         return ["m%d_%d" % (i, j) for j in range(s["ndof"])]
@@ -120,8 +127,8 @@ def gen_term_ops(rng, sites, cplx):
     return [[d, x] for d, x in ops]
 
 
-def gen_case(rng, cid, flavour, nterms=None, swaps=False):
-    sites = gen_sites(rng)
+def gen_case(rng, cid, flavour, nterms=None, swaps=False, sites=None):
+    sites = sites or gen_sites(rng)
     cplx = rng.random() < 0.3           # complex factors
     cmat = cplx or rng.random() < 0.25  # symbols with complex local matrices (also with purely real factors)
     nt = nterms or rng.choice([1, 2, 2, 3, 4, 5, 6, 8, 10, 12, 15, 20, 25, 30, 40])
@@ -146,10 +153,46 @@ def gen_case(rng, cid, flavour, nterms=None, swaps=False):
         off = gen_factor(rng, flavour, False)[0]
     case = {"id": cid, "sites": sites, "terms": terms, "offset": off, "flavour": flavour, "complex": cplx,
             "complex_matrix_real_factors": bool(cmat and not cplx)}
+    if off != 0 and rng.random() < 0.45:
+        # the same kind of number, but handed over with an explicit unit; a.u. value by the harness' own factors
+        unit = rng.choice(["eV", "meV", "cm-1", "cm^{-1}", "K", "ev", "au"])
+        val = rng.choice([-1, 1]) * rng.choice([1, 3, 5]) * 2.0 ** rng.randint(-6, 12)
+        case["offset_unit"] = unit
+        case["offset_value"] = val
+        case["offset"] = val / HARTREE_IN[unit]
+        # keep the constant row = the converted offset alone (no explicit all-identity terms), so that the relative
+        # tolerance of the unit conversion is not blurred by binary64 rounding of sums with large factors
+        keep = [t for t in terms if not all(o[1] == "I" for o in t["ops"])]
+        if keep:
+            case["terms"] = keep
     if swaps:
         n = len(sites)
         case["swaps"] = [rng.randrange(n - 1) for _ in range(rng.randint(1, 6))]
     return case
+
+
+def gen_history(rng, hid):
+    """several constructions in ONE process: same DoF names and sizes, different SHO parameters (omega, x0),
+    different construction algorithms, with / without the model.mpos cache; the first is re-checked at the end"""
+    while True:
+        sites = gen_sites(rng)
+        if any(s["kind"] == "sho" for s in sites):
+            break
+    gsites = [dict(s, x0=0.5) if s["kind"] == "sho" else s for s in sites]     # symbols valid for every x0
+    while True:
+        base = gen_case(rng, hid, rng.choice(["int", "dyadic"]), nterms=rng.choice([2, 3, 5, 8, 12]), sites=gsites)
+        if merged_rows(base, case_view(base)):        # fully cancelling lists (zero operator) are out of scope
+            break
+    steps = []
+    for k in range(rng.randint(3, 5)):
+        c = json.loads(json.dumps(base))
+        c["sites"] = [dict(s, omega=rng.choice([0.5, 1.0, 2.0, 4.0]), x0=rng.choice([0.0, 0.5, -1.25, 2.0])) if s["kind"] == "sho" else s
+                      for s in sites]
+        c["algo"] = rng.choice(ALGOS)
+        c["via_cache"] = rng.random() < 0.5
+        c["ham"] = rng.random() < 0.5
+        steps.append(c)
+    return {"id": hid, "steps": steps}
 
 
 # ---- the harness' own view of a case: per-term elementary operators (site, label), merged rows
@@ -393,7 +436,10 @@ def case_scale(case):
     for t in case["terms"]:
         for x in t["f"]:
             den = max(den, Fraction(x).denominator)
-    den = max(den, Fraction(case.get("offset", 0.0)).denominator)
+    if case.get("offset_unit"):
+        den = max(den, 2 ** 90)          # converted offsets are arbitrary binary64 numbers: rounded at 2^-90
+    else:
+        den = max(den, Fraction(case.get("offset", 0.0)).denominator)
     assert den & (den - 1) == 0
     return 2 * den
 
@@ -402,6 +448,8 @@ def case_prefix(case, view, S):
     n = view["nsite"]
     idl = lst("(%d,%d)" % e for e in view["idlab"])
     off = Fraction(case.get("offset", 0.0)) * S
+    if case.get("offset_unit"):
+        off = Fraction(2 * round(off / 2))       # keep the scaled constant even (literal 1 of the model stays unambiguous)
     assert off.denominator == 1
     return "%d %s %s %s" % (n, idl, terms_lit(view, S), gi_lit((-int(off), 0)))
 
@@ -434,7 +482,7 @@ def build_evals(case, view, r, stats):
                                                         lst(ws), bonds_lit(impl_bonds(rec), enc))
                 ev.append(((case["id"], "qr", algo), expr))
             else:
-                enc = scaler(S1)
+                enc = scaler(S1, allow_round=bool(case.get("offset_unit")))
                 ws = []
                 for st in steps:
                     rsel, csel, ok = graph_witness(st)
@@ -446,6 +494,10 @@ def build_evals(case, view, r, stats):
                 ev.append(((case["id"], "graph", algo), expr))
         except NotRepresentable as e:
             ev.append(((case["id"], "unrepresentable", algo), None))
+        if "primary_qn" in r and len(r["primary_qn"][0]) == 1:
+            encq = scaler(1, allow_round=True)
+            ev.append(((case["id"], "qn", algo), "tie_qn %s %s" % (lst(zlit(v[0]) for v in r["primary_qn"]),
+                                                                   bonds_lit(impl_bonds(rec), encq))))
         # swaps (integer flavour only: S = 1)
         for k, sw in enumerate(rec.get("swaps", [])):
             for lg in sw.get("log", []):
@@ -464,6 +516,27 @@ def build_evals(case, view, r, stats):
 
 
 # ====================================================================== comparisons
+def vclose(a, b, tol):
+    if tol == 0:
+        return a == b
+    x = complex(float(a[0]), float(a[1]))
+    y = complex(float(b[0]), float(b[1]))
+    return abs(x - y) <= tol * max(abs(x), abs(y))
+
+
+def rows_equal(a, b, tol):
+    """sorted lists of (key, value): keys exact, values exact (tol 0) or relative"""
+    return len(a) == len(b) and all(p[0] == q[0] and vclose(p[1], q[1], tol) for p, q in zip(a, b))
+
+
+def bonds_equal(a, b, tol):
+    return len(a) == len(b) and all(len(x) == len(y) and all(rows_equal(u, v, tol) for u, v in zip(x, y)) for x, y in zip(a, b))
+
+
+def case_tol(case):
+    return UNIT_TOL if case.get("offset_unit") else 0
+
+
 def sorted_rows(table, factor):
     return sorted((tuple(k), fr2(f)) for k, f in zip(table, factor))
 
@@ -487,7 +560,7 @@ def cmp_table(case, view, r, xs):
             probs.append("implementation rejected the term list (%s) but the model table has %d rows" % (r.get("table_error"), len(mt)))
         return probs
     it = sorted_rows(r["table"], r["factor"])
-    if it != mt:
+    if not rows_equal(it, mt, case_tol(case)):
         probs.append("_terms_to_table: rows/factors differ from the model (impl %d rows, model %d rows)" % (len(it), len(mt)))
     # the interning itself: primary operator i of the implementation must be the elementary operator the model
     # interned under index i (identity of site i for i < nsite, then first-appearance order)
@@ -515,10 +588,11 @@ def cmp_table(case, view, r, xs):
 def cmp_graph(case, view, r, rec, xs):
     S1 = case_scale(case)
     dec = dec_even(S1)
-    enc = scaler(S1)
+    tol = case_tol(case)
+    enc = scaler(S1, allow_round=bool(tol))
     probs = []
     rd = Reader(xs)
-    fastp, okb, finalb = rd.get(), rd.get(), rd.get()
+    fastp, okb, finalb, qnb = rd.get(), rd.get(), rd.get(), rd.get()
     mb = rd.bonds()
     mt = rd.tabs()
     diff = rd.tab()
@@ -535,10 +609,12 @@ def cmp_graph(case, view, r, rec, xs):
             probs.append("logged vertex cover / row order is not a valid witness (cover, NoDup, subset of rows/cols)")
         if not finalb:
             probs.append("model: final table is not [([0;0],1)]")
+        if not qnb:
+            probs.append("hypothesis of C01_mpo_qn_labels fails: a selected row is not a row of the table or a selected column has an empty complementary operator")
     model_b = [[sorted((k, dec(v)) for k, v in oo) for oo in b] for b in mb]
     impl_b = [[sorted((tuple(k), fr2(f)) for k, f in oo) for oo in b] for b in rec["out_ops_list"][1:]]
-    if model_b != impl_b:
-        j = next((i for i in range(min(len(model_b), len(impl_b))) if model_b[i] != impl_b[i]), None)
+    if not bonds_equal(model_b, impl_b, tol):
+        j = next((i for i in range(min(len(model_b), len(impl_b))) if not bonds_equal([model_b[i]], [impl_b[i]], tol)), None)
         probs.append("out-op lists differ (first differing bond %s; impl %d bonds, model %d)" % (j, len(impl_b), len(model_b)))
     if not fastp:
         # tables after every site
@@ -548,10 +624,19 @@ def cmp_graph(case, view, r, rec, xs):
             for j, st in enumerate(steps):
                 a = sorted((k, dec(v)) for k, v in mt[j + 1])
                 b = sorted_rows(st["table"], st["factor"])
-                if a != b:
+                if not rows_equal(a, b, tol):
                     probs.append("new table after site %d differs" % j)
                     break
-    if diff:
+    if diff and tol:
+        # only the constant (unit conversion) is inexact: every other string must agree exactly
+        n = view["nsite"]
+        ident = tuple(i for i, _ in sorted(view["idlab"]))
+        for k, (a, b) in diff:
+            if tuple(k) != tuple(range(n)) or abs(complex(a, b)) > tol * abs(case["offset"]) * float(S1 ** n):
+                probs.append("coeff(exported symbolic MPO) differs from the term list on string %s by %.3e (offset %s %s = %.6e a.u.)"
+                             % (list(k), abs(complex(a, b)) / float(S1 ** n), case["offset_value"], case["offset_unit"], case["offset"]))
+                break
+    elif diff:
         probs.append("coeff(exported symbolic MPO) != coeff(term list) - offset: %d strings differ, e.g. %s" % (len(diff), diff[:2]))
     # compose_symbolic_mo
     try:
@@ -662,6 +747,63 @@ def cmp_swap(lg, xs):
         probs.append("swap: new out-ops of the middle bond differ")
     if nb3 != i3:
         probs.append("swap: re-sorted out-ops of the right bond differ")
+    return probs
+
+
+def max_matching(bigraph):
+    """size of a maximum matching of a bipartite graph given as adjacency lists U -> V (augmenting paths)"""
+    match_v = {}
+
+    def aug(u, seen):
+        for v in bigraph[u]:
+            if v in seen:
+                continue
+            seen.add(v)
+            if v not in match_v or aug(match_v[v], seen):
+                match_v[v] = u
+                return True
+        return False
+    return sum(1 for u in range(len(bigraph)) if aug(u, set()))
+
+
+def bond_dim_checks(r, rec):
+    """run-time side of the bond-dimension theorems (graph algorithms): the logged cover is a MINIMUM cover
+    (Koenig: size = maximum matching, computed here independently), bond dimension = cover size, and at every cut
+    the bond dimension is at most the number of distinct left parts and of distinct right parts of the ORIGINAL
+    table (the left-part clause is only `_partial` in Coq and is therefore tested here)"""
+    probs = []
+    for j, st in enumerate(rec["steps"]):
+        if st["kind"] != "graph":
+            return probs
+        size = sum(1 for b in st["rowbool"] if b) + sum(1 for b in st["colbool"] if b)
+        if size != len(st["out_ops"]):
+            probs.append("site %d: bond dimension %d != size of the vertex cover %d" % (j, len(st["out_ops"]), size))
+        mm = max_matching(st["bigraph"])
+        if size != mm:
+            probs.append("site %d: cover of size %d is not minimum (maximum matching %d)" % (j, size, mm))
+    if "table" in r and rec["steps"]:
+        rows = [tuple(x) for x in r["table"]]
+        for cut in range(1, len(rows[0])):
+            d = rec["bond_dims"][cut]
+            nl = len(set(x[:cut] for x in rows))
+            nr = len(set(x[cut:] for x in rows))
+            if d > nl or d > nr:
+                probs.append("cut %d: bond dimension %d exceeds distinct left parts %d / right parts %d" % (cut, d, nl, nr))
+    return probs
+
+
+def cmp_qn(r, rec, xs):
+    """labels_chain / qntot_of of the model on the exported out-op lists vs mpo.qn / mpo.qntot (component 0)"""
+    rd = Reader(xs)
+    qntot = rd.get()
+    labs = [[rd.get() for _ in range(rd.get())] for _ in range(rd.get())]
+    probs = []
+    if [qntot] != [rec["qntot"][0]]:
+        probs.append("qntot: model %s, implementation %s" % (qntot, rec["qntot"]))
+    impl = [[q[0] for q in b] for b in rec["qn"]]
+    exp = [[0]] + labs[:-1] + [[0]]
+    if impl != exp:
+        probs.append("bond labels differ from labels_chain (impl %s, model %s)" % (impl[:4], exp[:4]))
     return probs
 
 
@@ -791,6 +933,8 @@ def make_repro(case, algo, swaps=None, swap_algo=None):
 def oracle_key(f):
     """stable key = call site + input class of an oracle failure"""
     exc = str(f["detail"]).split(":")[0] if f["kind"] == "exception" else "mismatch"
+    if f["stage"] == "history":
+        return "history-%s-%s" % (f["algo"], exc)
     if f["stage"] == "swap":
         if f["algo"] == "qr" and exc == "AssertionError":
             return "swap-default-after-qr-construction"
@@ -832,6 +976,17 @@ def shrink(ctx, case, f, budget_s=40):
     return cur
 
 
+def make_repro_history(h):
+    lib = open(os.path.join(common.VERIF, "harness", "impl", "c01_lib.py")).read()
+    drv = "\nimport json, sys\nh = json.loads(%r)\nfrom renormalizer.mps import Mpo\nkept = []\n" % json.dumps(h)
+    drv += "for case in h['steps']:\n    basis, terms, offset = build(case)\n    model = Model(basis, terms if case.get('ham') else [])\n"
+    drv += "    mk = lambda m: [Mpo(m, terms, offset=offset, algo=case['algo'])]\n"
+    drv += "    mpo = model.get_mpos('c01', mk)[0] if case.get('via_cache') else mk(model)[0]\n"
+    drv += "    ref = ref_dense(case)\n    err = rel_err(mpo.todense(), ref)\n    print(case['algo'], err)\n    assert err <= 1e-8\n    kept.append((mpo, ref))\n"
+    drv += "assert rel_err(kept[0][0].todense(), kept[0][1]) <= 1e-8\n"
+    return lib + drv
+
+
 def chunks(xs, n):
     k = max(1, (len(xs) + n - 1) // n)
     return [xs[i:i + k] for i in range(0, len(xs), k)]
@@ -869,7 +1024,7 @@ def run(ctx):
             ctx.obligations.append({"name": "no-escape-hatch gate " + rel, "file": rel, "ok": False, "assumptions": bad})
     # ---------------------------------------------------------------- 2. cases
     cases = []
-    dist = {"nsites": {}, "nterms": {}, "kinds": {}, "flavour": {}, "complex": 0, "complex_matrix_real_factors": 0, "offset": 0, "dup_or_cancel_terms": 0,
+    dist = {"nsites": {}, "nterms": {}, "kinds": {}, "flavour": {}, "offset_units": {}, "complex": 0, "complex_matrix_real_factors": 0, "offset": 0, "dup_or_cancel_terms": 0,
             "single_row": 0, "all_cancel_regenerated": 0}
     cid = 0
     while len(cases) < ncorr:
@@ -898,6 +1053,8 @@ def run(ctx):
         dist["complex"] += 1 if case["complex"] else 0
         dist["complex_matrix_real_factors"] += 1 if case["complex_matrix_real_factors"] else 0
         dist["offset"] += 1 if case["offset"] else 0
+        if case.get("offset_unit"):
+            dist["offset_units"][case["offset_unit"]] = dist["offset_units"].get(case["offset_unit"], 0) + 1
         dist["dup_or_cancel_terms"] += len(case["terms"]) + (1 if case["offset"] else 0) - len(mr)
     malformed = []       # fully cancelling term lists (zero operator) are out of scope: neither generated nor reported
     strip = lambda c: {k: v for k, v in c.items() if not k.startswith("_")}
@@ -991,10 +1148,17 @@ def run(ctx):
                         q = qn_check(r, rec)
                         for m in q:
                             problem("corr-qn-labels", cid_, algo, m)
+                        for m in bond_dim_checks(r, rec):
+                            problem("corr-bond-dims", cid_, algo, m)
+                        stats["min_cover_steps_checked"] = stats.get("min_cover_steps_checked", 0) + len(rec["steps"])
                         if any(any(s["rowbool"]) and any(s["colbool"]) for s in rec["steps"]):
                             nontrivial.add(cid_)
                         if not rec["steps"]:
                             fast_cases += 1
+                    elif what == "qn":
+                        p = cmp_qn(r, r["algos"][algo], xs)
+                        key = "corr-qn-labels"
+                        stats["qn_cmp"] = stats.get("qn_cmp", 0) + 1
                     elif what == "qr":
                         p = cmp_qr(case, view, r, r["algos"][algo], xs, stats)
                         key = "corr-construct-qr"
@@ -1065,17 +1229,23 @@ def run(ctx):
                 terms = [{"f": [[1.0, 2.0, -3.0][j], 0.0], "ops": [["s%d" % i, x] for i, x in enumerate(st)]} for j, st in enumerate(combo)]
                 ocases.append({"id": 300000 + n_exh, "sites": sites3, "terms": terms, "offset": 0.0, "flavour": "int", "complex": False})
                 n_exh += 1
+    hists = [gen_history(rng, 400000 + k) for k in range(40 if quick else 400)]
+    hbyid = {h["id"]: h for h in hists}
     obatches = chunks(ocases, 14)
-    oouts = ctx.impl_par("c01_oracle.py", [{"cases": b, "algos": ALGOS} for b in obatches], timeout=1200)
+    hbatches = [hists[k::len(obatches)] for k in range(len(obatches))]
+    oouts = ctx.impl_par("c01_oracle.py", [{"cases": b, "algos": ALGOS, "histories": hb} for b, hb in zip(obatches, hbatches)], timeout=1200)
     obyid = {c["id"]: c for c in ocases}
+    n_hist = 0
     for rc, res, txt in oouts:
         if res is None:
             impl_crash.append(txt[-800:])
             continue
         n_orc += res["n_construct"]
         n_swaps += res["n_swap"]
+        n_hist += res.get("n_history", 0)
         for f in res["fails"]:
             f["case"] = obyid.get(f["id"])
+            f["history"] = hbyid.get(f["id"])
             orc_fail.append(f)
     T["oracle"] = round(_t.time() - ctx.t0, 1)
     # ---------------------------------------------------------------- 6. probes (input classes kept out of the streams)
@@ -1102,6 +1272,9 @@ def run(ctx):
         f = min(fl, key=lambda x: len((x.get("case") or {}).get("terms", [])))
         c = f.get("case")
         repro = None
+        if f.get("history") is not None:
+            repro = make_repro_history(f["history"])
+            first_found = first_found or repro
         if c is not None:
             try:
                 c = shrink(ctx, c, f)
@@ -1115,7 +1288,7 @@ def run(ctx):
         ctx.violation(key, "dense oracle: Mpo(...).todense() / try_swap_site vs the independent NumPy reference"
                       + ("; also correspondence: " + ", ".join(sorted(corr)) if corr else ""),
                       {"n_failures": len(fl), "algo": f["algo"], "stage": f["stage"], "kind": f["kind"], "detail": f["detail"],
-                       "where": f.get("where"), "case": strip(c) if c else None},
+                       "where": f.get("where"), "case": strip(c) if c else None, "history": f.get("history"), "step": f.get("step")},
                       found=repro is not None, repro=repro)
     for key, pl in sorted(corr.items()):
         # a correspondence failure: is there a failing input on the real code among the same cases?
@@ -1142,9 +1315,10 @@ def run(ctx):
     ctx.notes.append("swap_sound is proved for the model of swap_site; the tie for swapping is correspondence (integer-factor cases) + dense oracle")
     dist.update({"correspondence_cases": len(cases), "oracle_cases": len(ocases), "exhaustive_3spin_lists": n_exh, "malformed_cases": len(malformed),
                  "fast_path_comparisons": fast_cases, "stats": stats})
-    return {"evaluations": n_cmp + n_orc + n_swaps,
+    dist["history_sequences"] = len(hists)
+    return {"evaluations": n_cmp + n_orc + n_swaps + n_hist, "oracle_history_constructions": n_hist,
             "distinct_nontrivial": len(nontrivial),
-            "rule": "evaluations = model-vs-implementation comparisons (table, per-algorithm construction incl. every bond/table/coeff check, swap_site calls) + dense-oracle constructions + dense-oracle swaps; a correspondence case counts as non-trivial when at some bond a graph algorithm selected both rows and columns (complementary operators next to whole rows)",
+            "rule": "evaluations = model-vs-implementation comparisons (table, per-algorithm construction incl. every bond/table/coeff check, swap_site calls) + dense-oracle constructions + dense-oracle swaps + constructions of the history stream (several operators built in one process with different SHO parameters / algorithms / model.mpos use, first one re-checked at the end); a correspondence case counts as non-trivial when at some bond a graph algorithm selected both rows and columns (complementary operators next to whole rows)",
             "samples": samples[:3], "exhaustive": False,
             "input_distribution": dist,
             "correspondence_comparisons": n_cmp, "oracle_constructions": n_orc, "oracle_swaps": n_swaps,
